@@ -78,7 +78,7 @@ def main():
         except Exception:  # noqa: BLE001
             m = {}
         m.update({
-            "property": prop,
+            "property": prop if prop.startswith("C") else m.get("property", prop),
             "origin": "independent sub-agent given only the property text and a scratch worktree",
             "confirmed_by_me": {
                 "worktree": wt, "suite_cmd": " ".join(SUITE), "suite_with_mutant": res["suite_with_mutant"],
